@@ -364,8 +364,8 @@ def run(ctx: Check, tree: Tree) -> None:
     ]
     ctx.not_decided += ["commutation of re-assignments in any order (last writer wins on a dict - a history property)", "custom builders"]
     ctx.assumptions += ["functools.singledispatchmethod dispatches on the type of the first argument"]
-    check_variable_set(ctx, tree)
-    check_builders_use_pool(ctx, tree)
-    check_symbol_duplicates(ctx, tree)
-    check_dispatch(ctx, tree)
-    check_same_decay(ctx, tree)
+    ctx.section(check_variable_set, ctx, tree)
+    ctx.section(check_builders_use_pool, ctx, tree)
+    ctx.section(check_symbol_duplicates, ctx, tree)
+    ctx.section(check_dispatch, ctx, tree)
+    ctx.section(check_same_decay, ctx, tree)
